@@ -21,6 +21,7 @@ func init() {
 			c.StoreCommit("C03", s)
 			// the histories quantified over include restarts: the record must survive them
 			c.SyncOption("C03")
+			c.SameStore("C10") // incl. C03.O7: the database directory does not depend on the working directory, so a restart finds the same records
 			c.WhoWrites("C03")
 			c.DomainRules("C05") // slashable objects are signed only through the protected endpoints
 			c.ForkJoinRules("C03") // rule evaluation finishes (and records) before RunRules returns and the key locks are released
